@@ -435,7 +435,7 @@ def run(scn):
                 # nothing was injected into this run; all that is special about it is that names around the
                 # requested output path are taken ("a fresh name is chosen")
                 v = Violation("collision-run-failed", f"a run into which nothing was injected, with pre-existing files {sorted(ob_['preexisting'])} around its output path, raised {tw.exc[0]}: {tw.exc[1][:100]}", exc=tw.exc[0])
-                return base.summarize(scn, tw, [v], True, ("twin-failed", tw.outcome))
+                return base.summarize(scn, tw, [v], True, ("twin-failed", tw.outcome), extra={"status": "twin-failed"})
             raise Discard(f"rejected:fault-free twin raised {tw.exc[0]}: {tw.exc[1][:60]}")
         resolve_line_fault(scn, tw)
         sim, h = run_scenario(scn)
@@ -519,7 +519,7 @@ def shrink(scn):
 def evidence_extra(results):
     import collections
 
-    st = collections.Counter(r["stats"].get("status") for r in results if r["discard"] is None)
+    st = collections.Counter(str(r["stats"].get("status")) for r in results if r["discard"] is None)
     cells = {r["grid_cell"]: r for r in results if r.get("grid_cell") is not None and r["discard"] is None}
     fired = sum(1 for r in cells.values() if r.get("fired"))
     return {
